@@ -1805,10 +1805,17 @@ def remove_silence_from_performed_part(ppart):
     ppart.controls = shifted_controls
 
     # Shift notes
+    on_ticks = [n["note_on_tick"] for n in ppart.notes if n["note_on_tick"] is not None]
+    start_tick = min(on_ticks) if len(on_ticks) > 0 else 0
     for note in ppart.notes:
         note["note_on"] = max(note["note_on"] - start_time, 0)
         note["note_off"] = max(note["note_off"] - start_time, 0)
         note["sound_off"] = max(note["sound_off"] - start_time, 0)
+        # the times in ticks follow the times in seconds
+        if note["note_on_tick"] is not None:
+            note["note_on_tick"] = max(note["note_on_tick"] - start_tick, 0)
+        if note["note_off_tick"] is not None:
+            note["note_off_tick"] = max(note["note_off_tick"] - start_tick, 0)
 
     # Shift programs
     for program in ppart.programs:
